@@ -43,8 +43,8 @@ ASSUMPTIONS = ['predicates are deterministic functions of (vector, id, metadata)
 PREDS = {
     'sum_gt1': lambda v, i, m: v.sum() > 1,
     'nnz_ge2': lambda v, i, m: (v != 0).sum() >= 2,
-    'first_nz': lambda v, i, m: v[0] != 0,
-    'last_pos': lambda v, i, m: v[-1] > 0,
+    'first_nz': lambda v, i, m: bool(len(v)) and v[0] != 0,       # total: a history may have emptied the other axis
+    'last_pos': lambda v, i, m: bool(len(v)) and v[-1] > 0,
     'id_even': lambda v, i, m: sum(str(i).encode()) % 2 == 0,
     'md_g1': lambda v, i, m: m is not None and m.get('g') == 'g1',
     'true': lambda v, i, m: True,
